@@ -88,12 +88,18 @@ def std_coords(h=H, w=W):
     return {"y": np.arange(h, 0, -1).astype(np.float64) * 2.0, "x": np.arange(w).astype(np.float64) * 2.0 + 10.0}
 
 
-def std_attrs():
-    return {"res": (2.0, 2.0), "crs": "EPSG:3857", "nodatavals": [-9999.0], "meta": {"source": "verif", "tags": ["a", "b"]}}
+def std_attrs(family=0):
+    """attrs of an input raster.  `res` comes in the shapes found in the wild (family): 0 a 2-tuple of Python floats, 1 a scalar
+    (what bump() / datashader emit), 2 a list, 3 a 3-tuple, 4 a string, 5 a 2-tuple of NumPy scalars; next to unrelated attrs
+    (crs, units, nested list / dict).  The cell size is 2.0 in every family (families 3-5 fall back to the coordinates)."""
+    np = _np()
+    res = {0: (2.0, 2.0), 1: 2.0, 2: [2.0, 2.0], 3: (2.0, 2.0, 1.0), 4: "2 m", 5: (np.float32(2.0), np.float64(2.0))}[family]
+    return {"res": res, "crs": "EPSG:3857", "units": "m", "nodatavals": [-9999.0],
+            "meta": {"source": "verif", "tags": ["a", "b"]}}
 
 
 def mk_raster(kind, dtype, layout="C", backend="numpy", seed=0, nan=False, name="r", h=H, w=W, chunks=(4, 4),
-              frac=False, coordscale=1):
+              frac=False, coordscale=1, attrs_family=0):
     """-> (DataArray, mem) where mem is the numpy array that backs it (for dask: the from_array source)."""
     np = _np()
     import xarray as xr
@@ -107,6 +113,7 @@ def mk_raster(kind, dtype, layout="C", backend="numpy", seed=0, nan=False, name=
         v[0, 0] = np.nan
         v[h - 1, w - 1] = np.nan
         v[0, w - 1] = np.inf
+        v[h - 1, 0] = -np.inf
     mem = lay(v.astype(dt), layout)
     data = mem
     if backend == "dask":
@@ -117,7 +124,7 @@ def mk_raster(kind, dtype, layout="C", backend="numpy", seed=0, nan=False, name=
     # besides the index coordinates: two scalar coordinates and a 2-D auxiliary (non-index) coordinate
     coords = {"y": ("y", co["y"]), "x": ("x", co["x"]), "band": 1, "spatial_ref": 0,
               "lat2d": (("y", "x"), co["y"].reshape(h, 1) * 100.0 + co["x"].reshape(1, w))}
-    agg = xr.DataArray(data, dims=["y", "x"], coords=coords, attrs=std_attrs(), name=name)
+    agg = xr.DataArray(data, dims=["y", "x"], coords=coords, attrs=std_attrs(attrs_family), name=name)
     return agg, mem
 
 
@@ -434,7 +441,8 @@ def public(p):
     return {k: v for k, v in p.items() if not k.startswith("_")}
 
 
-def build_inputs(entry, dtype, layout, backend, seed=0, h=H, w=W, finite=False, p=None, single_chunk=False, coordscale=1):
+def build_inputs(entry, dtype, layout, backend, seed=0, h=H, w=W, finite=False, p=None, single_chunk=False, coordscale=1,
+                 nonfinite=False, attrs_family=0):
     """-> list of (role, xarray object, [mem arrays]).  finite=True: no NaN / inf anywhere (and non-integral float values):
     in-place sorts, cumulative operations and normalisations only bite on all-finite, unsorted inputs."""
     np = _np()
@@ -454,7 +462,8 @@ def build_inputs(entry, dtype, layout, backend, seed=0, h=H, w=W, finite=False, 
         if opts.get("dtype") == "int" and np.dtype(dtype).kind == "f":
             dt = "int32"
         a, m = mk_raster(kind, dt, layout, backend, seed=seed + opts.get("seed", 0),
-                         nan=opts.get("nan", False) and not finite, frac=finite, name=role,
+                         nan=(opts.get("nan", False) and not finite) or nonfinite, frac=finite, name=role,
+                         attrs_family=attrs_family,
                          chunks="single" if single_chunk else opts.get("chunks", (4, 4) if h == H else (h // 3 + 1, w // 2 + 1)),
                          h=h, w=w, coordscale=coordscale)
         out.append((role, a, [m]))
